@@ -150,6 +150,43 @@ theorem skipping_reader_truncated (H : HashFn) (o : ReadOpts) (seek : Bool) (cho
   refine ⟨_, e, newBlockReader_v1 o seek roots _ hwf hmax h63, hne, ?_⟩
   simpa [sectionsBytes] using hrun
 
+/-- (2e) … and through a CARv2 container (any data padding; the header still announces the full payload
+    of size `n`): the file is cut inside section `b` of its payload window; any mix of Next and SkipNext
+    visits exactly the complete sections `pre`, with Offset relative to the payload and SourceOffset
+    = 51 + padding + Offset for the skipped ones, then fails with an error that is not a clean end. -/
+theorem skipping_reader_truncated_v2 (H : HashFn) (o : ReadOpts) (seek : Bool) (choice : Nat → Bool) (dp ip n : Nat) (hasIdx fi : Bool)
+    (roots : Option (List Cid)) (pre : List Block) (b : Block) (m : Nat)
+    (hwf : (CarHeader.mk roots 1).wf) (hmax : (encodeHeaderBody ⟨roots, 1⟩).length ≤ o.maxHeader)
+    (h63 : (encodeHeaderBody ⟨roots, 1⟩).length < 2 ^ 63) (h10 : 10 ≤ o.maxHeader)
+    (lok : LayoutOK dp ip n)
+    (hn : (encodeHeader ⟨roots, 1⟩ ++ (sectionsBytes pre ++ (sectionBytes b).take m)).length ≤ n)
+    (hok : ∀ x ∈ pre, x.wf o.maxSection ∧ checkBlock H o.trusted x = .ok () ∧ x.cid.digest.length ≤ maxDigestAlloc)
+    (hb : b.wf o.maxSection) (hm0 : 0 < m) (hm : m < sectionSize b) :
+    ∃ br e, newBlockReader o seek
+        (pragma ++ ((finalHeader dp ip n hasIdx fi).bytes ++
+          (zeros dp ++ (encodeHeader ⟨roots, 1⟩ ++ (sectionsBytes pre ++ (sectionBytes b).take m))))) = .ok br ∧
+      e ≠ .eof ∧
+      BR.runChoices H o choice (pre.length + 1) 0 br
+        = (expectedVisits choice (51 + dp) 0 (headerSize ⟨roots, 1⟩) pre, e) := by
+  have hpos : 0 < n := by
+    have := uvarintSize_pos (encodeHeaderBody ⟨roots, 1⟩).length
+    simp only [encodeHeader, List.length_append, uvarint_length] at hn; omega
+  have hwin : (encodeHeader ⟨roots, 1⟩ ++ (sectionsBytes pre ++ (sectionBytes b).take m)).take
+      (finalHeader dp ip n hasIdx fi).dataSize
+      = encodeHeader ⟨roots, 1⟩ ++ (sectionsBytes pre ++ (sectionBytes b).take m) := by
+    apply List.take_of_length_le
+    simpa [finalHeader] using hn
+  obtain ⟨br, hbr, _, hroots, hrest, hoff, hv1, hseek⟩ :=
+    newBlockReader_container o seek (finalHeader dp ip n hasIdx fi) dp _ roots
+      (sectionsBytes pre ++ (sectionBytes b).take m)
+      (finalHeader_wf dp ip n hasIdx fi hpos lok) (by simp [finalHeader]) hwin hwf hmax h63 h10
+  have inv : BRInvT br (headerSize ⟨roots, 1⟩) [] pre ((sectionBytes b).take m) :=
+    ⟨hrest, by rw [hoff, hv1]; simp [sectionsBytes], by intro h; rw [hseek] at h; cases h⟩
+  obtain ⟨e, hne, hrun⟩ := runChoices_truncated H o choice (headerSize ⟨roots, 1⟩) b m hb hm0 hm pre [] br 0 (pre.length + 1) inv (by omega) hok
+  refine ⟨br, e, hbr, hne, ?_⟩
+  rw [hv1] at hrun
+  simpa [sectionsBytes] using hrun
+
 /-- (3) Corruption of a block's bytes or digest: if section `i` is replaced by a section whose CID
     is still well-formed but whose data no longer hashes to it (any change of data or digest bytes
     under the explicit hypothesis `verifies = false`, i.e. no hash collision), the scan returns
